@@ -119,7 +119,12 @@ def srvObs (ws : List String) : String :=
       let cs := t.splitOn ","
       cs.all (fun c => c == "timeout" || c == "blocking" || c == "limit" || c == "backlog") && cs.length ≤ 6 &&
         (cs.filter (· == "timeout")).length == (if isDefault then 0 else 1)
-  match tmo, lstOk && callsOk with
+  -- `block=1` (forced stop, at least one connection): the handlers keep their worker threads busy; a forced stop awaits no worker
+  -- (`forced_does_not_wait_server`), so nothing changes in the prediction
+  let blockOk := match kv ws "block" with
+    | none => true
+    | some v => v == "1" && kv ws "mode" == some "f" && (match (kv ws "holds").bind parseHolds with | some (_ :: _) => true | _ => false)
+  match tmo, lstOk && callsOk && blockOk with
   | none, _ | _, false => "bad-op"
   | some timeout, true =>
   let mode : Option Bool := match kv ws "mode" with | some "g" => some true | some "f" => some false | _ => none
